@@ -253,7 +253,7 @@ def handler_part(res):
     vlib.ensure_model(nodeprop.RUN_TARGETS)
 
     def gen(rng, consts, i):
-        return nodegen.gen_server(rng, consts, many_peers=(i % 3 == 2), long_times=(i % 2 == 0))
+        return nodegen.gen_server(rng, consts, many_peers=(i % 3 == 2), long_times=(i % 2 == 0), mapped_sources=(i % 4 == 3))
 
     def checker(sc, meta, log, tr):
         return servercheck.check(sc, log, tr)
